@@ -306,6 +306,8 @@ FIXED_PROGRAMS = [
     "register r[2]\nmap q r[0]\nmacro m p { X p[q] }\nm r\n",
     "register r[2]\nregister s[r]\nmap a s[0:1]\n",
     "register r[4]\nmap a r[0:r]\n",
+    "let n 2\nregister r[4]\nmap a r[0:n:r]\ng a[0]\n",
+    "let n 2\nregister r[4]\nmap q r[1]\nmap a r[q:n]\nmap b a[:]\n",
     "register r[4]\nmap a r[0:2:r]\n",
     "register r[2]\ng 0.0\ng -0.0\ng 2\ng 2e0\n",
     "register r[4]\nmap a r[r:2]\n",
@@ -340,6 +342,9 @@ FIXED_PROGRAMS = [
     "register r[2]\nsubcircuit { g r[0] }\nsubcircuit 3 { g r[0] }\nsubcircuit r { }\n",
     "register r[2]\nbranch { '0' : { g r[0] } }\n",
     "register r[2]\nloop r { g r[0] }\n",
+    "register r[2]\nmap q r[0]\nloop q { g r[0] }\nsubcircuit q { g r[0] }\n",
+    "let x 1.5\nlet n 2\nregister r[2]\nloop n { g r[0] }\nsubcircuit x { g r[0] }\n",
+    "register r[2]\nmacro m a { loop a { g r[0] } }\nm 2\n",
     "register q[r]\n",
     "register r[2]\nregister s[r]\n",
     "let __in_context_parallel__ 1\nregister r[2]\n< g __in_context_parallel__ | subcircuit { } >\n",
